@@ -40,7 +40,7 @@ deriving Repr
 def fillKindOf : Option Val → String
   | none => "none"
   | some .nan => "nan"
-  | some (.fin q) => if q = 0 then "zero" else "neg"
+  | some (.fin q) => if q = 0 then "zero" else if q ≥ 32768 ∨ q < -32768 then "big" else "neg"
   | some _ => "neg"
 
 /-- effective `min_count` and `fill_value` (`groupby_reduce`, all label axes reduced) -/
